@@ -213,7 +213,8 @@ def corruptions(tp, rng):
     lines = [json.loads(x) for x in open(tp)]
     idx = {}
     for j, e in enumerate(lines):
-        idx.setdefault(e["e"], []).append(j)
+        if j <= max(400, len(lines) // 3):        # early events: a rejection is found quickly
+            idx.setdefault(e["e"], []).append(j)
     out = []
 
     def variant(name, f):
@@ -296,7 +297,7 @@ def validate(ctx, bench, prop, rounds, findings, stats, traces, yield_seed=0):
     for j, d in enumerate(host):
         validate_files(ctx, bench, prop, "hostile%d" % j, [d], mods, findings, stats, traces, allow_no_verify=True)
     if acc:
-        selftest(ctx, bench, acc, rng, traces, 3 if ctx.tier == "quick" else 6)
+        selftest(ctx, bench, acc, rng, traces, 3 if ctx.tier == "quick" else 6)     # quick: frame byte, frame fd, exit code
 
 
 def replay_trace(ctx, bench, path):
